@@ -4,6 +4,7 @@ From PV Require Import Num NumR model.Optimiser model.OptSpec proofs.OptStruct p
 From PV Require Import model.Cli gen.GenCli proofs.CliFacts.
 From PV Require Import gen.GenFns proofs.SourceFacts.
 From PV Require Import proofs.StepFacts.
+From PV Require Import proofs.SampleFloat proofs.RangeInst proofs.RatioFloat.
 
 Theorem C19_ratio_le_one :
   forall (NN : Num) (fexp : carrier NN -> carrier NN) (score : N -> list (carrier NN) -> option
@@ -111,4 +112,28 @@ Theorem C19_every_move_bounded_real :
     g) - v) <= max_step NumR c * (h_max NumR h - h_min NumR h) / 2)%R.
 Proof. exact R_C19_every_move_bounded. Qed.
 Print Assumptions C19_every_move_bounded_real.
+
+
+Theorem C19_ratio_in_unit_interval_binary64 :
+  forall (fexp : F -> F) (score : N -> list F -> option F) (c : cfg NumF) (ps : list (carrier
+    NumF)) (hs : list (handle NumF)) (s0 : carrier NumF) (draws : list (draw NumF)), let r :=
+    ratio NumF (run NumF fexp score c (init NumF c ps hs s0) draws) in fposn r /\ fleb r 1 =
+    true.
+Proof. exact F_ratio_in_unit_interval. Qed.
+Print Assumptions C19_ratio_in_unit_interval_binary64.
+
+Theorem C19_ratio_update_keeps_positive_numbers :
+  forall (x : F) (i r : N), fposn x ->
+    fposn (nmin (NN:=NumF) (nmul (n:=NumF) x (ndiv (n:=NumF) (ofN NumF i) (nadd (n:=NumF) (ofN NumF r) n1))) n1).
+Proof. exact F_ratio_step. Qed.
+Print Assumptions C19_ratio_update_keeps_positive_numbers.
+
+Theorem C19_ratio_pred :
+  forall (NN : Num) (fexp : carrier NN -> carrier NN) (score : N -> list (carrier NN) -> option
+    (carrier NN)) (P : carrier NN -> Prop), P (@n1 NN) -> (forall (x : carrier NN) (i r : N), P
+    x -> P (@nmin NN (x * (ofN NN i / (ofN NN r + @n1 NN)))%num (@n1 NN))) -> forall (c : cfg
+    NN) (ps : list (carrier NN)) (hs : list (handle NN)) (s0 : carrier NN) (draws : list (draw
+    NN)), P (ratio NN (run NN fexp score c (init NN c ps hs s0) draws)).
+Proof. exact OptLoop.C19_ratio_pred. Qed.
+Print Assumptions C19_ratio_pred.
 
